@@ -521,6 +521,15 @@ class _ControlLoopRunner:
 
         await self.adapter.on_tick(tick)
 
+        if any(
+            isinstance(c, (CommandCompleteRun, CommandFailWorkflow, CommandHalt))
+            for c in commands
+        ):
+            # The run ends with this tick (result, failure, cancellation or timeout):
+            # stop the other workers first, so that nothing they still write to the
+            # event stream lands after the terminal event published below.
+            await self.cleanup_tasks()
+
         for command in commands:
             try:
                 result = await self.process_command(command)
